@@ -56,6 +56,48 @@ fn flat(t: TokenStream, out: &mut Vec<String>) {
     }
 }
 
+/// consistent renaming of identifiers (and lifetimes, keys starting with ') in a token stream
+fn rename(t: TokenStream, map: &std::collections::HashMap<String, String>) -> TokenStream {
+    let mut out = TokenStream::new();
+    let mut after_tick = false;
+    for tt in t {
+        match tt {
+            proc_macro2::TokenTree::Group(g) => {
+                let mut ng = proc_macro2::Group::new(g.delimiter(), rename(g.stream(), map));
+                ng.set_span(g.span());
+                out.extend(std::iter::once(proc_macro2::TokenTree::Group(ng)));
+                after_tick = false;
+            }
+            proc_macro2::TokenTree::Ident(i) => {
+                let name = i.to_string();
+                let key = if after_tick { format!("'{}", name) } else { name.clone() };
+                let new = match map.get(&key) {
+                    Some(n) => {
+                        let n = n.trim_start_matches('\'');
+                        if let Some(r) = n.strip_prefix("r#") {
+                            proc_macro2::Ident::new_raw(r, i.span())
+                        } else {
+                            proc_macro2::Ident::new(n, i.span())
+                        }
+                    }
+                    None => i,
+                };
+                out.extend(std::iter::once(proc_macro2::TokenTree::Ident(new)));
+                after_tick = false;
+            }
+            proc_macro2::TokenTree::Punct(p) => {
+                after_tick = p.as_char() == '\'' && p.spacing() == proc_macro2::Spacing::Joint;
+                out.extend(std::iter::once(proc_macro2::TokenTree::Punct(p)));
+            }
+            other => {
+                out.extend(std::iter::once(other));
+                after_tick = false;
+            }
+        }
+    }
+    out
+}
+
 fn atoms_of(w: Option<&syn::WhereClause>) -> Vec<String> {
     let mut out = Vec::new();
     if let Some(w) = w {
@@ -257,6 +299,20 @@ fn handle(line: &str) -> Value {
             match syn::parse_str::<syn::WhereClause>(src) {
                 Ok(w) => json!({"id": id, "atoms": atoms_of(Some(&w))}),
                 Err(e) => json!({"id": id, "parse_error": e.to_string()}),
+            }
+        }
+        "rename" => {
+            // {"k":"rename","src":..,"map":{"T":"Option","'l":"'a",..}}
+            let src = req["src"].as_str().unwrap_or("");
+            let mut map = std::collections::HashMap::new();
+            if let Some(m) = req["map"].as_object() {
+                for (k, v) in m {
+                    map.insert(k.clone(), v.as_str().unwrap_or("").to_string());
+                }
+            }
+            match TokenStream::from_str(src) {
+                Ok(t) => json!({"id": id, "src": rename(t, &map).to_string()}),
+                Err(e) => json!({"id": id, "lex_error": e.to_string()}),
             }
         }
         "corpus" => {
